@@ -2,6 +2,7 @@
 //!
 //! `tv-sim <PROP> --tier quick|thorough|search --seed N --out FILE [--replay CASEFILE] [--cases N]`
 
+mod c11;
 mod common;
 mod families;
 mod script;
@@ -43,6 +44,26 @@ fn run_case(n: usize, idx: usize, fam: &Family, seed: u64, out: &mut impl Write)
 
 fn replay_case(path: &str, out: &mut impl Write) {
     let text = std::fs::read_to_string(path).expect("case file");
+    if text.lines().next().map(|l| l.contains("family=c11")).unwrap_or(false) {
+        let mut c = c11::parse_cfg("CFG");
+        let mut ctl: Vec<String> = Vec::new();
+        for l in text.lines() {
+            if l.starts_with("CASE ") {
+                log(l.to_string());
+            } else if l.starts_with("CFG ") {
+                c = c11::parse_cfg(l);
+                log(l.to_string());
+            } else if let Some(rest) = l.strip_prefix("OP ctl ") {
+                ctl.push(rest.to_string());
+            }
+        }
+        c11::execute(&c, &ctl);
+        log("END".into());
+        for l in take_log() {
+            writeln!(out, "{l}").unwrap();
+        }
+        return;
+    }
     let mut cfg = CaseCfg::default();
     let mut header = "CASE 0 family=replay seed=0".to_string();
     let mut ctl: Vec<String> = Vec::new();
@@ -112,6 +133,25 @@ fn main() {
         return;
     }
 
+    if prop == "C11" {
+        let total = cases.unwrap_or(match tier.as_str() { "quick" => 1500, "search" => 6000, _ => 40000 });
+        let mut master = Rng::new(seed);
+        for n in 0..total {
+            let s = master.next();
+            let mut rng = Rng::new(s);
+            let (c, ctl) = c11::generate(&mut rng, n);
+            log(format!("CASE {n} family=c11 seed={s}"));
+            log(c11::cfg_line(&c));
+            c11::execute(&c, &ctl);
+            log("END".into());
+            for l in take_log() {
+                writeln!(out, "{l}").unwrap();
+            }
+        }
+        out.flush().unwrap();
+        eprintln!("tv-sim C11 tier={tier} seed={seed} cases={total}");
+        return;
+    }
     let fams = families::families_for(&prop);
     if fams.is_empty() {
         eprintln!("no families for {prop}");
